@@ -1,4 +1,4 @@
-CONSTANTS CiStart = 14 K = 6 NP = 2 Sizes = {0, 1, 4, 7} Fills = {0, 1} MaxBlocks = 4 Faults = {"none", "drop", "err2"} Units = {"bp"} Policies = {"strict", "lenient"} UnitBlocks = 0 TailCheck = TRUE Foreign = {"none", "page", "stream", "mag"} TailAtForeign = TRUE
+CONSTANTS CiStart = 14 K = 6 NP = 2 Sizes = {0, 1, 4, 7} Fills = {0, 1} MaxBlocks = 4 Faults = {"none", "drop", "err2"} Units = {"bp"} Policies = {"strict", "lenient"} UnitBlocks = 0 TailCheck = TRUE Foreign = {"none", "page", "stream", "mag"} TailAtForeign = TRUE Noise = {0} NoisePos = {"all"} NoiseFaults = {"none"}
 SPECIFICATION LeapSpec
 INVARIANTS Sound Complete Resume
 CHECK_DEADLOCK FALSE
